@@ -1981,9 +1981,53 @@ def fold_keyword_dicts(trees: Dict[str, ast.Module]) -> int:
             i += 1
         return out or [ast.Pass()]
 
+    def last_binds(s_, rv):
+        """the `rv = E` statements that end every way through s_ (an assignment, or an if whose branches all end in one), else None"""
+        if isinstance(s_, ast.Assign) and len(s_.targets) == 1 and isinstance(s_.targets[0], ast.Name) and s_.targets[0].id == rv:
+            return [s_]
+        if isinstance(s_, ast.If) and s_.body and s_.orelse:
+            a, b = last_binds(s_.body[-1], rv), last_binds(s_.orelse[-1], rv)
+            return a + b if a is not None and b is not None else None
+        return None
+
+    def block_d(body, fn, uses):
+        """(d) rv = E (on every branch of the statement before);  a, b = rv   with rv read nowhere else: the branches assign a, b"""
+        nonlocal done
+        out: List[ast.stmt] = []
+        for s_ in body:
+            for fld in ("body", "orelse", "finalbody"):
+                b = getattr(s_, fld, None)
+                if isinstance(b, list) and b and isinstance(b[0], ast.stmt) and not isinstance(s_, (ast.FunctionDef, ast.ClassDef)):
+                    setattr(s_, fld, block_d(b, fn, uses))
+            for h in getattr(s_, "handlers", []) or []:
+                h.body = block_d(h.body, fn, uses)
+            if (out and isinstance(s_, ast.Assign) and len(s_.targets) == 1 and isinstance(s_.value, ast.Name) and isinstance(s_.targets[0], (ast.Tuple, ast.Name))
+                    and s_.value.id in uses and s_.value.id != "__folded__"):
+                rv = s_.value.id
+                binds = last_binds(out[-1], rv)
+                tnames = {x.id for x in ast.walk(s_.targets[0]) if isinstance(x, ast.Name)}
+                if binds is not None and rv not in tnames and not any(isinstance(x, ast.Name) and x.id in tnames | {rv} for b_ in binds for x in ast.walk(b_.value)):
+                    for b_ in binds:
+                        b_.targets = [copy.deepcopy(s_.targets[0])]
+                    uses["__folded__"].add(s_.value)
+                    done += 1
+                    continue
+            out.append(s_)
+        return out or [ast.Pass()]
+
     for t in trees.values():
         for fn in ast.walk(t):
             if isinstance(fn, ast.FunctionDef):
+                uses: Dict[str, list] = {"__folded__": set()}
+                unpacked = set()
+                for x in ast.walk(fn):
+                    if isinstance(x, ast.Name) and isinstance(x.ctx, ast.Load):
+                        uses.setdefault(x.id, []).append(x)
+                    if isinstance(x, ast.Assign) and len(x.targets) == 1 and isinstance(x.value, ast.Name):
+                        unpacked.add(id(x.value))
+                # only temporaries every read of which is such a hand-over  T = rv
+                uses = {k: v for k, v in uses.items() if k == "__folded__" or all(id(u) in unpacked for u in v)}
+                fn.body = block_d(fn.body, fn, uses)
                 fn.body = block(fn.body, fn)
                 fn.body = block_c(fn.body, fn)
     return done
